@@ -125,7 +125,28 @@ def task_wrapper(arg):
         if why:
             out.violation(f"wrong-rounding:{name}:{want['direction']}:{want['base']}", {**case, "value": v, "result": r}, f"{name} on {ds}: {why}")
             break
-    # scalar path (numpy.vectorize hands scalars to the rule; the wrapper sees arrays, but user code may call it with scalars)
+    # other output kinds a rule can have: a Python / numpy scalar (parameter-only rules), an integer array, a short array
+    def stub_of(value):
+        def stub2():
+            return value
+        stub2.__name__ = name
+        stub2.__info__ = {"params_key_for_rounding": g, "name_in_dag": name}
+        return IF._add_rounding_to_functions({name: stub2}, p)[name]
+
+    probes = [vals[3], vals[len(vals) // 2], vals[-4]]
+    for v in probes:
+        for label, value in (("python-float", float(v)), ("numpy-scalar", np.float64(v)), ("one-element-array", np.array([v])), ("int-array", np.array([int(round(v))] * 3))):
+            try:
+                r = stub_of(value)()
+            except Exception:  # noqa: BLE001
+                out.count("scalar_probe_raises")  # loud, e.g. a Python float has no .round(); production hands numpy values to the wrapper
+                continue
+            out.step()
+            r0 = float(np.asarray(r, dtype=float).reshape(-1)[0])
+            u = float(int(round(v))) if label == "int-array" else float(v)
+            why = judge(Fraction(u), r0, want["base"], want["direction"], want.get("to_add_after_rounding"))
+            if why:
+                out.violation(f"wrong-rounding:{name}:{want['direction']}:{want['base']}:{label}", {**case, "value": u, "result": r0, "kind": label}, f"{name} on {ds} ({label}): {why}")
     out.outcome((want["base"], want["direction"], want.get("to_add_after_rounding")))
     out.sample(case, limit=1)
     return out.dump()
@@ -191,6 +212,19 @@ def task_graph(arg):
     from _gettsim.functions_loader import load_and_check_functions
 
     fn_all, _ = load_and_check_functions(f, nodes, list(cols), {}, {})
+    # the rounding key attached by the decorator must survive vectorisation / partialling for exactly the rules that carry it
+    from mc.ref import registry as RR
+    import datetime as _dt
+
+    decl = {r["dag_name"]: r["rounding_key"] for rs in RR.active(_dt.date.fromisoformat(ds)).values() for r in rs}
+    proc = IF._round_and_partial_parameters_to_functions({k: fn_all[k] for k in nodes}, p, rounding=False)
+    for n in nodes:
+        if n in f:
+            for stage, fobj in (("vectorised", fn_all[n]), ("partialled", proc[n])):
+                have = (getattr(fobj, "__info__", {}) or {}).get("params_key_for_rounding")
+                if have != decl.get(n):
+                    out.violation(f"graph:{n}:rounding-key-{stage}-differs-from-decorator", {"date": ds, "node": n},
+                                  f"{n}: decorator declares rounding key {decl.get(n)!r}, the {stage} function carries {have!r}")
     raw = IF._round_and_partial_parameters_to_functions({k: fn_all[k] for k in nodes}, p, rounding=False)
     vals = {**{c: df[c].to_numpy() for c in df.columns}, **{c: R[c].to_numpy() for c in R.columns}}
     vals0 = {**{c: df[c].to_numpy() for c in df.columns}, **{c: R0[c].to_numpy() for c in R0.columns}}
